@@ -294,7 +294,7 @@ Proof.
       rewrite rd_entry_enc by exact Fe. rewrite IH by exact Fr. reflexivity. }
     rewrite (M es [] WE). reflexivity.
   - exact WL.
-  - rewrite app_nil_r. apply flat_map_length_ge. intros e. apply entry_enc_nonempty.
+  - rewrite app_nil_r. apply flat_map_length_ge. intros e. unfold enc1. exact (entry_enc_nonempty order e).
 Qed.
 
 Definition wf_remove (ids : list N) : Prop := N.of_nat (length ids) < 2147483648 /\ Forall id_ok ids.
@@ -340,16 +340,15 @@ Lemma client_upsert_masked order es C :
 Proof.
   unfold client_upsert, two_pass_upsert.
   assert (B : forall a, In a all_actions -> has_action (bits_of order) a = mem a order) by (intros; apply has_bits; assumption).
-  destruct (masked_fields order) with (e := d_default 0) as [_ _].
   assert (K : forall e, d_id (masked order e) = d_id e) by (intros e; apply masked_fields).
   assert (U : forall e c, c_upd (bits_of order) (masked order e) c = c_upd (bits_of order) e c).
   { intros e c. destruct (masked_fields order e) as [_ [_ [F2 [F3 [F4 [F5 F6]]]]]].
-    unfold c_upd. rewrite !B by (cbv; tauto).
-    destruct (mem 2 order); [rewrite F2 by reflexivity|];
-    destruct (mem 3 order); [rewrite F3 by reflexivity|];
-    destruct (mem 4 order); [rewrite F4 by reflexivity|];
-    destruct (mem 5 order); [rewrite F5 by reflexivity|];
-    destruct (mem 6 order); [rewrite F6 by reflexivity|]; reflexivity. }
+    unfold c_upd. rewrite !B by (cbv; tauto). f_equal.
+    - destruct (mem 3 order) eqn:M; [rewrite F3 by reflexivity|]; reflexivity.
+    - destruct (mem 4 order) eqn:M; [rewrite F4 by reflexivity|]; reflexivity.
+    - destruct (mem 2 order) eqn:M; [rewrite F2 by reflexivity|]; reflexivity.
+    - destruct (mem 5 order) eqn:M; [rewrite F5 by reflexivity|]; reflexivity.
+    - destruct (mem 6 order) eqn:M; [rewrite F6 by reflexivity|]; reflexivity. }
   assert (P2 : forall l m, fold_left (upd_present d_id (c_upd (bits_of order))) (map (masked order) l) m
                            = fold_left (upd_present d_id (c_upd (bits_of order))) l m).
   { induction l as [|e r IH]; intros m; [reflexivity|]. cbn [map fold_left]. rewrite IH. f_equal.
@@ -386,4 +385,284 @@ Proof.
   induction ps as [|p r IH]; intros C F; [reflexivity|].
   inversion F as [|? ? Fp Fr]; subst. cbn [map client_after]. rewrite wire_ok by exact Fp.
   rewrite IH by exact Fr. reflexivity.
+Qed.
+
+(* ---------- every packet of a well-formed history is well-formed ---------- *)
+
+Definition tbl_ok (ver : N) (tbl : list bytes) : Prop := Forall (comp_ok ver) tbl.
+Definition dn_ok (tbl : list bytes) (o : option N) : Prop :=
+  match o with Some i => (N.to_nat i < length tbl)%nat | None => True end.
+
+Definition wf_attrs (tbl : list bytes) (a : pattrs) : Prop :=
+  short 16 (a_name a) /\ wf_props (a_props a) /\ int32 (a_latency a) /\ int32 (a_gm a) /\
+  dn_ok tbl (a_dn a) /\ int32 (a_order a).
+Definition wf_bentry (tbl : list bytes) (e : bentry) : Prop :=
+  id_ok (b_id e) /\ short 16 (b_name e) /\ wf_props (b_props e) /\ int32 (b_gm e) /\
+  int32 (b_latency e) /\ dn_ok tbl (b_dn e) /\ int32 (b_order e).
+
+Definition wf_state (tbl : list bytes) (P : pstate) : Prop :=
+  Forall (fun kv => id_ok (fst kv) /\ wf_attrs tbl (snd kv)) P.
+
+Definition wf_op (ver : N) (tbl : list bytes) (P : pstate) (o : top) : Prop :=
+  match o with
+  | Add l => Forall (fun kv => id_ok (fst kv) /\ wf_attrs tbl (snd kv)) l
+  | AddLive _ => True
+  | RemoveAll [] => N.of_nat (length P) < 2147483648
+  | RemoveAll ids => wf_remove ids
+  | SetLatency id v => id_ok id /\ int32 v
+  | SetGameMode id v => id_ok id /\ int32 v
+  | SetListed id _ => id_ok id
+  | SetDisplayName id v => id_ok id /\ dn_ok tbl v
+  | SetListOrder id v => id_ok id /\ int32 v
+  | SetShowHat id _ => id_ok id
+  | BackendUpsert acts es => length acts = 8%nat /\ wf_acts ver acts /\
+                             N.of_nat (length es) < 2147483648 /\ Forall (wf_bentry tbl) es
+  | BackendRemove ids => wf_remove ids
+  end.
+
+Definition wf_dentry (ver : N) (e : dentry) : Prop :=
+  id_ok (d_id e) /\ forall a, In a all_actions -> wf_field ver a e.
+
+Lemma wf_dentry_intro ver id nm ps gm li lat dn od ht :
+  id_ok id -> short 16 nm -> wf_props ps -> int32 gm -> int32 lat ->
+  match dn with Some c => comp_ok ver c | None => True end -> int32 od ->
+  wf_dentry ver (mkD id nm ps false gm li lat dn od ht).
+Proof.
+  intros H1 H2 H3 H4 H5 H6 H7. split; [exact H1|]. intros a I. cbn [all_actions In] in I.
+  repeat (destruct I as [<-|I]); [..|destruct I]; cbn; auto.
+Qed.
+
+Lemma wf_entry_of ver order e : wf_dentry ver e -> wf_entry ver order e.
+Proof. intros [H1 H2]. split; [exact H1|]. intros a I _. apply H2. exact I. Qed.
+
+Lemma dn_opt_ok ver tbl o : tbl_ok ver tbl -> dn_ok tbl o ->
+  match dn_opt tbl o with Some c => comp_ok ver c | None => True end.
+Proof.
+  intros T D. destruct o as [i|]; [|exact I]. cbn [dn_opt option_map]. unfold dn_bytes.
+  cbn [dn_ok] in D. unfold tbl_ok in T. rewrite Forall_forall in T. apply T. apply nth_In. exact D.
+Qed.
+
+Lemma short_nil max : short max [].
+Proof. unfold short. cbn. lia. Qed.
+Lemma wf_props_nil : wf_props [].
+Proof. split; [cbn; lia|constructor]. Qed.
+Lemma int32_0 : int32 0.
+Proof. unfold int32. lia. Qed.
+
+Lemma wf_order_intro ver order :
+  (mem 6 order = true -> ge ver 768 = true) -> (mem 7 order = true -> ge ver 769 = true) ->
+  wf_order ver order.
+Proof.
+  intros H6 H7 a I L. unfold n_actions, ge in *. cbn [all_actions In] in I.
+  destruct (N.ltb_spec ver 768) as [V1|V1]; [|destruct (N.ltb_spec ver 769) as [V2|V2]];
+    repeat (destruct I as [<-|I]); try destruct I; try lia.
+  - destruct (mem 6 order); [|reflexivity]. specialize (H6 eq_refl). apply N.leb_le in H6. lia.
+  - destruct (mem 7 order); [|reflexivity]. specialize (H7 eq_refl). apply N.leb_le in H7. lia.
+  - destruct (mem 7 order); [|reflexivity]. specialize (H7 eq_refl). apply N.leb_le in H7. lia.
+Qed.
+
+Lemma wf_single ver order d : wf_order ver order -> wf_dentry ver d -> wf_spkt ver (SUpsert order [d]).
+Proof.
+  intros O D. cbn [wf_spkt]. split; [exact O|]. split; [cbn; lia|]. constructor; [|constructor].
+  apply wf_entry_of. exact D.
+Qed.
+
+Lemma fresh_wf ver tbl id a :
+  tbl_ok ver tbl -> id_ok id -> wf_attrs tbl a -> wf_spkt ver (fresh_packet ver tbl id a).
+Proof.
+  intros T I [A1 [A2 [A3 [A4 [A5 A6]]]]]. unfold fresh_packet. apply wf_single.
+  - apply wf_order_intro; repeat (rewrite mem_app || rewrite mem_opt); cbn [mem existsb N.eqb Pos.eqb orb andb];
+      rewrite ?andb_false_r, ?andb_true_r, ?orb_false_r; cbn [orb]; intros H.
+    + apply andb_true_iff in H. apply H.
+    + apply andb_true_iff in H. apply H.
+  - apply wf_dentry_intro; try assumption. apply dn_opt_ok; assumption.
+Qed.
+
+Lemma diff_wf ver tbl id p a :
+  tbl_ok ver tbl -> id_ok id -> wf_attrs tbl a -> Forall (wf_spkt ver) (diff_packet ver tbl id p a).
+Proof.
+  intros T I [A1 [A2 [A3 [A4 [A5 A6]]]]]. unfold diff_packet.
+  set (order := _ ++ _). assert (O : wf_order ver order).
+  { unfold order. apply wf_order_intro; repeat (rewrite mem_app || rewrite mem_opt);
+      cbn [mem existsb N.eqb Pos.eqb orb andb]; rewrite ?andb_false_r, ?andb_true_r, ?orb_false_r; cbn [orb]; intros H.
+    - apply andb_true_iff in H. apply H.
+    - apply andb_true_iff in H. apply H. }
+  destruct order; [constructor|]. constructor; [|constructor]. apply wf_single; [exact O|].
+  apply wf_dentry_intro; try assumption; try apply short_nil; try apply wf_props_nil.
+  - destruct (negb (a_latency p =? a_latency a)%Z); [assumption|apply int32_0].
+  - destruct (negb (opt_N_eqb (a_dn p) (a_dn a))); [apply dn_opt_ok; assumption|exact Logic.I].
+Qed.
+
+Lemma Forall_aset {V} (Q : N * V -> Prop) k v : forall m, Forall Q m -> Q (k, v) -> Forall Q (aset k v m).
+Proof.
+  induction m as [|[k' v'] m IH]; intros F H; cbn [aset]; [constructor; [exact H|constructor]|].
+  inversion F as [|? ? F1 F2]; subst. destruct (k =? k'); [constructor; assumption|].
+  destruct (k <? k'); [constructor; assumption|]. constructor; [exact F1|apply IH; assumption].
+Qed.
+Lemma Forall_adel {V} (Q : N * V -> Prop) k : forall m, Forall Q m -> Forall Q (adel k m).
+Proof.
+  induction m as [|[k' v'] m IH]; intros F; cbn [adel]; [constructor|].
+  inversion F as [|? ? F1 F2]; subst. destruct (k' =? k); [apply IH; exact F2|].
+  constructor; [exact F1|apply IH; exact F2].
+Qed.
+Lemma Forall_aget {V} (Q : N * V -> Prop) k v : forall m, Forall Q m -> aget k m = Some v -> Q (k, v).
+Proof.
+  induction m as [|[k' v'] m IH]; intros F G; [discriminate G|]. cbn [aget] in G.
+  inversion F as [|? ? F1 F2]; subst. destruct (N.eqb_spec k' k) as [->|D]; [inversion G; subst; exact F1|].
+  apply IH; assumption.
+Qed.
+Lemma Forall_fold_adel {V} (Q : N * V -> Prop) ids : forall m : amap V, Forall Q m -> Forall Q (fold_left (fun m id => adel id m) ids m).
+Proof. induction ids as [|i r IH]; intros m F; [exact F|]. cbn [fold_left]. apply IH. apply Forall_adel. exact F. Qed.
+
+Lemma add_one_wf ver tbl P id a :
+  tbl_ok ver tbl -> wf_state tbl P -> id_ok id -> wf_attrs tbl a ->
+  Forall (wf_spkt ver) (snd (add_one spec_tcfg ver tbl P id a)) /\ wf_state tbl (fst (add_one spec_tcfg ver tbl P id a)).
+Proof.
+  intros T S I A. unfold add_one.
+  assert (S' : wf_state tbl (aset id a P)) by (apply Forall_aset; [exact S|split; assumption]).
+  destruct (aget id P) as [p|].
+  - destruct (readd spec_tcfg && negb (same_profile p a)); cbn [fst snd]; split; try exact S'.
+    + constructor; [|constructor; [apply fresh_wf; assumption|constructor]].
+      cbn [wf_spkt]. split; [cbn; lia|constructor; [exact I|constructor]].
+    + apply diff_wf; assumption.
+  - cbn [fst snd]. split; [|exact S']. constructor; [apply fresh_wf; assumption|constructor].
+Qed.
+
+Lemma add_many_wf ver tbl : forall l P,
+  tbl_ok ver tbl -> wf_state tbl P -> Forall (fun kv => id_ok (fst kv) /\ wf_attrs tbl (snd kv)) l ->
+  Forall (wf_spkt ver) (snd (fst (add_many spec_tcfg ver tbl P l))) /\
+  wf_state tbl (fst (fst (add_many spec_tcfg ver tbl P l))).
+Proof.
+  induction l as [|[id a] r IH]; intros P T S F; [split; [constructor|exact S]|].
+  inversion F as [|? ? [F1 F2] Fr]; subst. cbn [fst snd] in F1, F2. cbn [add_many].
+  destruct (id =? 0); [split; [constructor|exact S]|].
+  destruct (add_one_wf ver tbl P id a T S F1 F2) as [W1 S1].
+  destruct (add_one spec_tcfg ver tbl P id a) as [s1 ps]. cbn [fst snd] in *.
+  destruct (IH s1 T S1 Fr) as [W2 S2].
+  destruct (add_many spec_tcfg ver tbl s1 r) as [[s2 ps2] t]. cbn [fst snd] in *.
+  split; [apply Forall_app; split; assumption|exact S2].
+Qed.
+
+Lemma setter_wf ver tbl P id f pk :
+  wf_state tbl P -> Forall (wf_spkt ver) pk -> (forall a, wf_attrs tbl a -> wf_attrs tbl (f a)) ->
+  Forall (wf_spkt ver) (snd (fst (setter P id f pk))) /\ wf_state tbl (fst (fst (setter P id f pk))).
+Proof.
+  intros S W F. unfold setter. destruct (aget id P) as [a|] eqn:G; cbn [fst snd]; [|split; [constructor|exact S]].
+  split; [exact W|]. apply Forall_aset; [exact S|].
+  destruct (Forall_aget _ id a P S G) as [I A]. split; [exact I|apply F; exact A].
+Qed.
+
+Lemma order_of_in : forall acts i a, mem a (order_of acts i) = true -> i <= a < i + N.of_nat (length acts).
+Proof.
+  induction acts as [|x r IH]; intros i a H; [discriminate H|].
+  cbn [order_of] in H. rewrite mem_app in H. apply orb_true_iff in H. destruct H as [H|H].
+  - destruct x; [|discriminate H]. cbn in H. rewrite orb_false_r in H. apply N.eqb_eq in H. subst. cbn [length]. lia.
+  - apply IH in H. cbn [length]. lia.
+Qed.
+
+Lemma backend_state_wf tbl bits add : forall es P,
+  wf_state tbl P -> Forall (wf_bentry tbl) es ->
+  wf_state tbl (seq_upsert b_id p_new (p_upd bits) add es P).
+Proof.
+  unfold seq_upsert. induction es as [|e r IH]; intros P S F; [exact S|].
+  inversion F as [|? ? [B1 [B2 [B3 [B4 [B5 [B6 B7]]]]]] Fr]; subst. cbn [fold_left]. apply IH; [|exact Fr].
+  assert (S1 : wf_state tbl (if add then add_absent b_id p_new P e else P)).
+  { destruct add; [|exact S]. unfold add_absent. destruct (aget (b_id e) P); [exact S|].
+    apply Forall_aset; [exact S|]. split; [exact B1|].
+    unfold wf_attrs, p_new. cbn [fst snd a_name a_props a_latency a_gm a_dn a_order].
+    split; [exact B2|]. split; [exact B3|]. unfold int32, dn_ok. repeat split; try lia. }
+  revert S1. generalize (if add then add_absent b_id p_new P e else P). intros P1 S1.
+  unfold upd_present. destruct (aget (b_id e) P1) as [a|] eqn:G; [|exact S1].
+  apply Forall_aset; [exact S1|]. destruct (Forall_aget _ _ _ _ S1 G) as [I [A1 [A2 [A3 [A4 [A5 A6]]]]]].
+  split; [exact I|]. unfold wf_attrs, p_upd. cbn [fst snd a_name a_props a_latency a_gm a_dn a_order].
+  split; [exact A1|]. split; [exact A2|].
+  split; [destruct (has_action bits 4); assumption|].
+  split; [destruct (has_action bits 2); assumption|].
+  split; [destruct (has_action bits 5); assumption|].
+  destruct (has_action bits 6); assumption.
+Qed.
+
+Lemma pstep_wf ver tbl P o :
+  tbl_ok ver tbl -> wf_state tbl P -> wf_op ver tbl P o ->
+  Forall (wf_spkt ver) (snd (fst (pstep spec_tcfg ver tbl P o))) /\
+  wf_state tbl (fst (fst (pstep spec_tcfg ver tbl P o))).
+Proof.
+  intros T S W. destruct o as [l|id|ids|id v|id v|id v|id v|id v|id v|acts es|ids]; cbn [pstep wf_op] in *.
+  - apply add_many_wf; assumption.
+  - destruct (aget id P); split; try constructor; exact S.
+  - destruct ids as [|i r].
+    + destruct P as [|kv P']; [split; [constructor|exact S]|]. cbn [fst snd]. split; [|constructor].
+      constructor; [|constructor]. cbn [wf_spkt]. split; [rewrite map_length; exact W|].
+      unfold wf_state in S. rewrite Forall_forall in *. intros x Hx. apply in_map_iff in Hx.
+      destruct Hx as [kv' [<- Hk]]. apply (S kv' Hk).
+    + cbn [fst snd]. split; [constructor; [exact W|constructor]|]. apply Forall_fold_adel. exact S.
+  - destruct W as [I V]. apply setter_wf; [exact S| |].
+    + constructor; [|constructor]. apply wf_single; [apply wf_order_intro; cbn; discriminate|].
+      apply wf_dentry_intro; try assumption; try apply short_nil; try apply wf_props_nil; try apply int32_0; exact Logic.I.
+    + intros a [A1 [A2 [A3 [A4 [A5 A6]]]]]. unfold wf_attrs; cbn [fst snd a_name a_props a_latency a_gm a_dn a_order]; auto 10.
+  - destruct W as [I V]. apply setter_wf; [exact S| |].
+    + constructor; [|constructor]. apply wf_single; [apply wf_order_intro; cbn; discriminate|].
+      apply wf_dentry_intro; try assumption; try apply short_nil; try apply wf_props_nil; try apply int32_0; exact Logic.I.
+    + intros a [A1 [A2 [A3 [A4 [A5 A6]]]]]. unfold wf_attrs; cbn [fst snd a_name a_props a_latency a_gm a_dn a_order]; auto 10.
+  - apply setter_wf; [exact S| |].
+    + constructor; [|constructor]. apply wf_single; [apply wf_order_intro; cbn; discriminate|].
+      apply wf_dentry_intro; try assumption; try apply short_nil; try apply wf_props_nil; try apply int32_0; exact Logic.I.
+    + intros a [A1 [A2 [A3 [A4 [A5 A6]]]]]. unfold wf_attrs; cbn [fst snd a_name a_props a_latency a_gm a_dn a_order]; auto 10.
+  - destruct W as [I V]. apply setter_wf; [exact S| |].
+    + constructor; [|constructor]. apply wf_single; [apply wf_order_intro; cbn; discriminate|].
+      apply wf_dentry_intro; try assumption; try apply short_nil; try apply wf_props_nil; try apply int32_0.
+      apply dn_opt_ok; assumption.
+    + intros a [A1 [A2 [A3 [A4 [A5 A6]]]]]. unfold wf_attrs; cbn [fst snd a_name a_props a_latency a_gm a_dn a_order]; auto 10.
+  - destruct W as [I V]. apply setter_wf; [exact S| |].
+    + destruct (ge ver 768) eqn:G; [|constructor]. constructor; [|constructor].
+      apply wf_single; [apply wf_order_intro; cbn; intros H; try discriminate H; exact G|].
+      apply wf_dentry_intro; try assumption; try apply short_nil; try apply wf_props_nil; try apply int32_0; exact Logic.I.
+    + intros a [A1 [A2 [A3 [A4 [A5 A6]]]]]. unfold wf_attrs; cbn [fst snd a_name a_props a_latency a_gm a_dn a_order]; auto 10.
+  - apply setter_wf; [exact S| |].
+    + destruct (ge ver 769) eqn:G; [|constructor]. constructor; [|constructor].
+      apply wf_single; [apply wf_order_intro; cbn; intros H; try discriminate H; exact G|].
+      apply wf_dentry_intro; try assumption; try apply short_nil; try apply wf_props_nil; try apply int32_0; exact Logic.I.
+    + intros a [A1 [A2 [A3 [A4 [A5 A6]]]]]. unfold wf_attrs; cbn [fst snd a_name a_props a_latency a_gm a_dn a_order]; auto 10.
+  - destruct W as [L [WA [WL WE]]]. cbn [fst snd]. split.
+    + constructor; [|constructor]. cbn [wf_spkt]. split; [exact WA|]. split; [rewrite map_length; exact WL|].
+      rewrite Forall_forall in *. intros d Hd. apply in_map_iff in Hd. destruct Hd as [e [<- He]].
+      destruct (WE e He) as [B1 [B2 [B3 [B4 [B5 [B6 B7]]]]]].
+      apply wf_entry_of. unfold b_dentry. apply wf_dentry_intro; try assumption. apply dn_opt_ok; assumption.
+    + apply backend_state_wf; assumption.
+  - cbn [fst snd]. split; [constructor; [exact W|constructor]|]. apply Forall_fold_adel. exact S.
+Qed.
+
+(* ---------- histories, through the bytes ---------- *)
+
+Fixpoint wf_hist (ver : N) (tbl : list bytes) (P : pstate) (h : list top) : Prop :=
+  match h with
+  | [] => True
+  | o :: r => wf_op ver tbl P o /\ wf_top ver o /\ wf_hist ver tbl (fst (fst (pstep spec_tcfg ver tbl P o))) r
+  end.
+
+Lemma packets_wire ver tbl : forall h P,
+  packets spec_tcfg ver tbl P h = map (wire spec_tcfg) (spackets spec_tcfg ver tbl P h).
+Proof.
+  induction h as [|o r IH]; intros P; [reflexivity|]. cbn [packets spackets]. rewrite map_app, IH. reflexivity.
+Qed.
+
+Lemma spackets_wf ver tbl : forall h P,
+  tbl_ok ver tbl -> wf_state tbl P -> wf_hist ver tbl P h ->
+  Forall (wf_spkt ver) (spackets spec_tcfg ver tbl P h) /\ Forall (wf_top ver) h.
+Proof.
+  induction h as [|o r IH]; intros P T S W; [split; constructor|].
+  destruct W as [W1 [W2 W3]]. destruct (pstep_wf ver tbl P o T S W1) as [F S'].
+  destruct (IH _ T S' W3) as [F' WT]. cbn [spackets]. split; [apply Forall_app; split; assumption|].
+  constructor; assumption.
+Qed.
+
+Theorem C28_wire ver tbl h :
+  tbl_ok ver tbl -> wf_hist ver tbl [] h ->
+  exists c, client_after ver [] (packets spec_tcfg ver tbl [] h) = Some c /\
+            forall k, aget k (view ver tbl (proxy_after spec_tcfg ver tbl [] h)) = aget k c.
+Proof.
+  intros T W. destruct (spackets_wf ver tbl h [] T (Forall_nil _) W) as [F WT].
+  exists (apply_all [] (spackets spec_tcfg ver tbl [] h)). split.
+  - rewrite packets_wire. apply wires_ok. exact F.
+  - intros k. rewrite aget_view. exact (C28_struct ver tbl h [] [] (fun _ => eq_refl) WT k).
 Qed.
